@@ -29,9 +29,11 @@ prop('C01', COMMON +
      'elimination, LIR->WASM). ENUM-EVIDENCE: every construction of an unboxed enum variant is guarded by the layout '
      'predicate, and every possibly-true answer of that predicate is dominated by the Some edge of a lookup of the payload '
      'type\'s completed definition. EVAL-ORDER: on no path of the source->HIR lowering is a later child (arguments, right '
-     'operand, match arms, branches) lowered before the earlier one (callee, left operand, scrutinee, condition). Does '
+     'operand, match arms, branches) lowered before the earlier one (callee, left operand, scrutinee, condition). '
+     'RESOLVED-ORDINAL: every ordinal the checker resolves into the typed tree (field index, variant tag) is read by the '
+     'source->HIR lowering. TYPE-WALKER: type rewriters of the compiler visit every child position. Does '
      'not decide that a visited operand is lowered correctly.',
-     [enum_evidence.run, eval_order.run, type_walker.make(('samlang_compiler',), 3), TI.make(['T-hir', 'T-mir_generics_specialization', 'T-mir_type_deduplication', 'T-mir_constant_param_elimination',
+     [enum_evidence.run, eval_order.run, eval_order.run_resolved_ordinal, type_walker.make(('samlang_compiler',), 3), TI.make(['T-hir', 'T-mir_generics_specialization', 'T-mir_type_deduplication', 'T-mir_constant_param_elimination',
                'T-lir_lowering', 'T-lune', 'T-wasm'])])
 
 prop('C02', COMMON +
